@@ -16,7 +16,7 @@ import (
 func init() {
 	register(&explore.Prop{
 		ID: "C15", Level: levelMC, Explorer: "E2 sequence explorer, path mode",
-		Rule: "environment = four segments (A built in memory, B persisted+loaded from a byte slice the harness keeps, M produced by a merge: 1-hit terms, A' a twin of A with the same shape and byte ranges but other content) and three caller bitmaps (single doc; a run-optimisable range; empty); operations = full observation of each segment, WriteTo of each, DocsMatchingTerms, a doc-value reader opened on the very slice Fields() returned, builds of two other batches (the pooled builder is recycled), PostingsList(except=bitmap)+walk on each segment, and merges of sub-lists [A],[A,B],[B,A],[A,M],[M,B],[A,B,M] under several bitmap assignments (public Merge API and chunk-mode hook); every operation sequence of length <=3 (thorough <=4) on a fresh environment; after every operation: observation and persisted bytes of every segment, the raw byte image given to Load, and value + serialized form of every bitmap must equal the baseline; SEQ-LARGE: a second environment of three 1100-document segments (loaded from a kept byte slice, merge output loaded from a kept byte slice, built in memory: two doc-value chunks, nine stored blocks) and a 130-document segment whose first stored block decompresses to 1.4 MiB, with 23 operations (one doc-value reader crossing the chunk boundary forwards / backwards over different field lists, stored visits across blocks, postings walks with Advance across chunks, five merges), every sequence of length <=2 (thorough <=3), after every operation: raw images, persisted bytes and a probe observation (doc values, stored fields, one postings walk on both sides of every boundary) of all three, for single operations the full observation too; " +
+		Rule: "environment = four segments (A built in memory, B persisted+loaded from a byte slice the harness keeps, M produced by a merge: 1-hit terms, A' a twin of A with the same shape and byte ranges but other content) and three caller bitmaps (single doc; a run-optimisable range; empty); operations = full observation of each segment, WriteTo of each, DocsMatchingTerms, a doc-value reader opened on the very slice Fields() returned, builds of two other batches (the pooled builder is recycled), PostingsList(except=bitmap)+walk on each segment, and merges of sub-lists [A],[A,B],[B,A],[A,M],[M,B],[A,B,M] under several bitmap assignments (public Merge API and chunk-mode hook); every operation sequence of length <=3 (thorough <=4) on a fresh environment; after every operation: observation and persisted bytes of every segment, the raw byte image given to Load, and value + serialized form of every bitmap must equal the baseline; SEQ-LARGE: a second environment of three 1100-document segments (loaded from a kept byte slice, merge output loaded from a kept byte slice, built in memory: two doc-value chunks, nine stored blocks) and a 130-document segment whose first stored block decompresses to 1.4 MiB, with 23 operations (one doc-value reader crossing the chunk boundary forwards / backwards over different field lists, stored visits across blocks, postings walks with Advance across chunks, five merges), every sequence of length <=2 (thorough <=3), after every operation: raw images, persisted bytes and a probe observation (doc values, stored fields, one postings walk on both sides of every boundary) of all three, for single operations the full observation too; DROPS-LARGE: a 4000-document segment merged (alone / after a partner; public API / hook) with a caller bitmap of 100, 1024, 2048, 3071, 3072, 3073, 3500, 3999 documents (from the front, up to the end, every other), built by single Add calls: members and serialized form of the bitmap and the segment's bytes unchanged; " +
 			"distinct = sequences; non-trivial = sequence contains a merge or a WriteTo followed by a re-observation (all do); states = environments built, transitions = operations",
 		Assumptions: commonAssumptions, Budget: qBudget, Run: runC15,
 	})
@@ -323,6 +323,7 @@ func errOf(msg string, err error) error {
 
 func runC15(c *explore.Ctx) {
 	runC15Large(c)
+	c15Drops(c)
 	ops := c15Ops()
 	maxLen := 3
 	if c.Thorough() {
